@@ -30,7 +30,7 @@ static void p_eow(int force, const char *f, ...) { }
 static void p_msg(int pri, const char *f, ...) { }
 static long p_timer(void (*cb)(void *), void *arg, long ms) { return 1; }
 static int p_cancel(long id) { return 0; }
-static int p_dirname(const char *s, char *d, size_t n) { return -1; }
+static int p_dirname(const char *s, char *d, size_t n) { char *q; snprintf(d, n, "%s", s); q = strrchr(d, '/'); if (q) *q = 0; return 0; }
 static int p_secure(const char *p, char *e, size_t n, int fl) { return 1; }
 static int p_entropy(void *b, size_t n, const char **src) { return -1; }
 static int p_entropy_uint(unsigned *u) { return -1; }
@@ -95,7 +95,7 @@ int main(void) {
     char f[256];
     size_t shorts[] = {0, 1, 512, RANDOM_SEED_BYTES - 1}, fulls[] = {RANDOM_SEED_BYTES, RANDOM_SEED_BYTES + 1, 5000};
     unsigned i;
-    int short_ok = 1, full_ok = 1, creates, renews, n;
+    int short_ok = 1, full_ok = 1, creates, renews, n, bad_keeps = 0, bad_removed = 0, good_ret = -1, absent_ret = -1;
     struct stat a, b;
     unsigned char old[RANDOM_SEED_BYTES], new[RANDOM_SEED_BYTES];
     if (!mkdtemp(dir)) return 2;
@@ -120,6 +120,26 @@ int main(void) {
         renews = memcmp(old, new, sizeof old) != 0;
     }
     unlink(f);
+    /* start-up on an untrusted seed file (wrong mode, foreign owner, symbolic link): the file must be removed and the
+       caller must NOT be told to forget the seed path (a negative return makes main() drop seed_name: no seed is
+       written at the clean stop) */
+    {
+        char tgt[300]; int r1, r2, r3, r4, gone = 1; struct stat st;
+        snprintf(tgt, sizeof tgt, "%s/target", dir);
+        make_file(f, RANDOM_SEED_BYTES); chmod(f, 0644);
+        r1 = _random_read_entropy_from_file(f); gone &= (lstat(f, &st) != 0); unlink(f);
+        make_file(f, RANDOM_SEED_BYTES); chmod(f, 0660);
+        r2 = _random_read_entropy_from_file(f); gone &= (lstat(f, &st) != 0); unlink(f);
+        make_file(f, RANDOM_SEED_BYTES); if (chown(f, 4242, 4242) != 0) { }
+        r3 = _random_read_entropy_from_file(f); gone &= (geteuid() != 0) || (lstat(f, &st) != 0); unlink(f);
+        make_file(tgt, RANDOM_SEED_BYTES); if (symlink(tgt, f) != 0) { }
+        r4 = _random_read_entropy_from_file(f); gone &= (lstat(f, &st) != 0); unlink(f); unlink(tgt);
+        bad_keeps = (r1 >= 0) && (r2 >= 0) && (r3 >= 0) && (r4 >= 0);
+        bad_removed = gone;
+        make_file(f, RANDOM_SEED_BYTES);
+        good_ret = _random_read_entropy_from_file(f); unlink(f);
+        absent_ret = _random_read_entropy_from_file(f);
+    }
     rmdir(dir);
     printf("(* random.c, observed by tools/probes/start_seed_probe.c *)\n");
     printf("Definition seed_bytes : N := %d.\n", RANDOM_SEED_BYTES);
@@ -134,5 +154,11 @@ int main(void) {
     printf("Definition seed_create_mode : N := %u.\n", (unsigned) open_mode & 07777);
     printf("Definition seed_write_creates_missing : bool := %s.\n", B(creates));
     printf("Definition seed_write_renews_existing : bool := %s.\n", B(renews));
+    printf("(* _random_read_entropy_from_file at start-up: on an absent and on a good seed file it does not return < 0; on an\n"
+           "   untrusted one (mode 0644 / 0660, foreign owner, symbolic link) it removes the file and does not return < 0 either\n"
+           "   (< 0 makes main() forget the seed path: no seed would be written at the clean stop) *)\n");
+    printf("Definition seed_start_ok_keeps_path : bool := %s.\n", B(good_ret >= 0 && absent_ret >= 0));
+    printf("Definition seed_start_bad_keeps_path : bool := %s.\n", B(bad_keeps));
+    printf("Definition seed_start_bad_removed : bool := %s.\n", B(bad_removed));
     return 0;
 }
